@@ -1,15 +1,519 @@
 /-! REGENERATED on every run by /verif/extract from /repo — do not edit. -/
 namespace Tmv.Facts
 
+/-- const abci/types/result.go CodeTypeOK -/
+def abci_CodeTypeOK : Int := 0
+
 /-- cond types/part_set.go PartSet.AddPart -/
 def addPart_index_guard : String := "part.Index >= ps.total"
 
 /-- cond types/part_set.go PartSet.AddPart -/
 def addPart_position_guard : String := "part.Proof.Index != int64(part.Index) || part.Proof.Total != int64(ps.total)"
 
+/-- cond consensus/state.go State.enterPrecommit -/
+def c02_guard_enterPrecommit : String := "cs.Height != height || round < cs.Round || (cs.Round == round && cstypes.RoundStepPrecommit <= cs.Step)"
+
+/-- cond consensus/state.go State.enterPrevote -/
+def c02_guard_enterPrevote : String := "cs.Height != height || round < cs.Round || (cs.Round == round && cstypes.RoundStepPrevote <= cs.Step)"
+
+/-- cond consensus/state.go State.enterPropose -/
+def c02_guard_enterPropose : String := "cs.Height != height || round < cs.Round || (cs.Round == round && cstypes.RoundStepPropose <= cs.Step)"
+
+/-- cond privval/file.go FilePVLastSignState.CheckHRS -/
+def c02_hrs_round_regression : String := "lss.Round > round"
+
+/-- cond privval/file.go FilePVLastSignState.CheckHRS -/
+def c02_hrs_step_regression : String := "lss.Step > step"
+
+/-- cond types/vote_set.go VoteSet.addVerifiedVote -/
+def c02_quorum_crossing : String := "origSum < quorum && quorum <= votesByBlock.sum"
+
+/-- has types/vote_set.go VoteSet.addVerifiedVote -/
+def c02_quorum_expr : Bool := true
+
+/-- cond consensus/state.go State.handleTimeout -/
+def c02_timeout_guard : String := "ti.Height != rs.Height || ti.Round < rs.Round || (ti.Round == rs.Round && ti.Step < rs.Step)"
+
+/-- cond consensus/state.go State.addVote -/
+def c02_unlock_on_polka : String := "(cs.LockedBlock != nil) && (cs.LockedRound < vote.Round) && (vote.Round <= cs.Round) && !cs.LockedBlock.HashesTo(blockID.Hash)"
+
+/-- has consensus/state.go State.signVote -/
+def c02_vote_carries_cs_round : Bool := true
+
+/-- order state/execution.go BlockExecutor.ApplyBlock -/
+def c05_applyBlock_order : List String := ["validateBlock", "execBlockOnProxyApp", "SaveABCIResponses", "updateState", "Commit", "Save"]
+
+/-- has consensus/replay.go State.catchupReplay -/
+def c05_catchup_writes_missing_marker : Bool := true
+
+/-- order state/execution.go BlockExecutor.Commit -/
+def c05_commit_order : List String := ["Lock", "FlushAppConn", "CommitSync", "Update"]
+
+/-- order state/execution.go ExecCommitBlock -/
+def c05_execCommit_order : List String := ["execBlockOnProxyApp", "CommitSync"]
+
+/-- order state/execution.go execBlockOnProxyApp -/
+def c05_exec_order : List String := ["BeginBlockSync", "DeliverTxAsync", "EndBlockSync"]
+
+/-- order consensus/state.go State.finalizeCommit -/
+def c05_finalize_order : List String := ["SaveBlock", "WriteSync", "ApplyBlock", "updateToState"]
+
+/-- has consensus/replay.go Handshaker.ReplayBlocks -/
+def c05_replay_app_ahead_case : Bool := true
+
+/-- cond consensus/replay.go Handshaker.ReplayBlocks -/
+def c05_replay_genesis_state_guard : String := "stateBlockHeight == 0"
+
+/-- cond consensus/replay.go Handshaker.ReplayBlocks -/
+def c05_replay_initchain_guard : String := "appBlockHeight == 0"
+
+/-- has consensus/replay.go Handshaker.ReplayBlocks -/
+def c05_replay_mock_loads_last_resp : Bool := true
+
+/-- has consensus/replay.go Handshaker.ReplayBlocks -/
+def c05_replay_store_ahead_case : Bool := true
+
+/-- cond consensus/replay.go Handshaker.ReplayBlocks -/
+def c05_replay_store_eq_state : String := "storeBlockHeight == stateBlockHeight"
+
+/-- order mempool/v0/clist_mempool.go CListMempool.CheckTx -/
+def c05_v0_check_order : List String := ["RLock", "RUnlock", "CheckTxAsync"]
+
+/-- has mempool/v0/clist_mempool.go CListMempool.CheckTx -/
+def c05_v0_check_unlock_deferred : Bool := true
+
+/-- order mempool/v1/mempool.go TxMempool.CheckTx -/
+def c05_v1_check_order : List String := ["RLock", "RUnlock", "CheckTxSync", "addNewTransaction"]
+
+/-- has mempool/v1/mempool.go TxMempool.FlushAppConn -/
+def c05_v1_flush_unlocks : Bool := true
+
+/-- has mempool/v1/mempool.go TxMempool.recheckTransactions -/
+def c05_v1_recheck_in_goroutine : Bool := true
+
+/-- const crypto/tmhash/hash.go TruncatedSize -/
+def c06_AddressSize : Int := 20
+
+/-- const version/version.go BlockProtocol -/
+def c06_BlockProtocol : Int := 11
+
+/-- const types/params.go MaxBlockSizeBytes -/
+def c06_MaxBlockSizeBytes : Int := 104857600
+
+/-- const types/genesis.go MaxChainIDLen -/
+def c06_MaxChainIDLen : Int := 50
+
+/-- const types/block.go MaxCommitOverheadBytes -/
+def c06_MaxCommitOverheadBytes : Int := 94
+
+/-- const types/block.go MaxCommitSigBytes -/
+def c06_MaxCommitSigBytes : Int := 109
+
+/-- const types/block.go MaxHeaderBytes -/
+def c06_MaxHeaderBytes : Int := 626
+
+/-- const types/block.go MaxOverheadForBlock -/
+def c06_MaxOverheadForBlock : Int := 11
+
+/-- has types/time/time.go WeightedMedian -/
+def c06_median_half : Bool := true
+
+/-- cond types/time/time.go WeightedMedian -/
+def c06_median_pick : String := "median <= weightedTime.Weight"
+
+/-- has state/execution.go BlockExecutor.CreateProposalBlock -/
+def c06_proposal_budget_vals : Bool := true
+
+/-- order state/validation.go validateBlock -/
+def c06_validate_order : List String := ["ValidateBasic", "HashConsensusParams", "VerifyCommit", "HasAddress", "After", "MedianTime", "ByteSize"]
+
+/-- const types/validator_set.go MaxTotalVotingPower -/
+def c07_MaxTotalVotingPower : Int := 1152921504606846975
+
+/-- has types/validator_set.go ValidatorSet.VerifyCommit -/
+def c07_full_needed_two_thirds : Bool := true
+
+/-- cond types/validator_set.go ValidatorSet.VerifyCommit -/
+def c07_full_threshold : String := "got <= needed"
+
+/-- has types/validator_set.go ValidatorSet.VerifyCommitLight -/
+def c07_light_needed_two_thirds : Bool := true
+
+/-- cond types/validator_set.go ValidatorSet.VerifyCommitLight -/
+def c07_light_threshold : String := "talliedVotingPower > votingPowerNeeded"
+
+/-- cond types/validator_set.go ValidatorSet.VerifyCommitLightTrusting -/
+def c07_trusting_fraction_guard : String := "trustLevel.Numerator > math.MaxInt64 || trustLevel.Denominator > math.MaxInt64"
+
+/-- order types/validator_set.go ValidatorSet.VerifyCommitLightTrusting -/
+def c07_trusting_order : List String := ["safeMul", "GetByAddress", "VoteSignBytes", "VerifySignature"]
+
+/-- cond types/validator_set.go ValidatorSet.VerifyCommitLightTrusting -/
+def c07_trusting_threshold : String := "talliedVotingPower > votingPowerNeeded"
+
+/-- const crypto/tmhash/hash.go TruncatedSize -/
+def c08_AddressSize : Int := 20
+
+/-- const types/validator_set.go MaxTotalVotingPower -/
+def c08_MaxTotalVotingPower : Int := 1152921504606846975
+
+/-- const types/validator_set.go PriorityWindowSizeFactor -/
+def c08_PriorityWindowSizeFactor : Int := 2
+
+/-- order types/validator_set.go ValidatorSet.IncrementProposerPriority -/
+def c08_increment_order : List String := ["RescalePriorities", "shiftByAvgProposerPriority", "incrementProposerPriority"]
+
+/-- cond state/store.go dbStore.LoadValidators -/
+def c08_load_loop_cond : String := "h < height"
+
+/-- has state/store.go dbStore.LoadValidators -/
+def c08_load_one_shot_increment : Bool := false
+
+/-- has state/store.go dbStore.LoadValidators -/
+def c08_load_single_increments : Bool := true
+
+/-- has types/validator_set.go computeNewPriorities -/
+def c08_new_priority_penalty : Bool := true
+
+/-- cond state/store.go dbStore.saveValidatorsInfo -/
+def c08_saveValidatorsInfo_stored_iff : String := "height == lastHeightChanged || height%valSetCheckpointInterval == 0"
+
+/-- order types/validator_set.go ValidatorSet.updateWithChangeSet -/
+def c08_update_order : List String := ["processChanges", "numNewValidators", "verifyRemovals", "verifyUpdates", "computeNewPriorities", "applyUpdates", "applyRemovals", "updateTotalVotingPower", "RescalePriorities", "shiftByAvgProposerPriority"]
+
+/-- const state/store.go valSetCheckpointInterval -/
+def c08_valSetCheckpointInterval : Int := 100000
+
+/-- cond types/validator_set.go verifyUpdates -/
+def c08_verifyUpdates_limit : String := "tvpAfterRemovals > MaxTotalVotingPower"
+
+/-- has blockchain/v0/pool.go BlockPool.IsCaughtUp -/
+def c13_caughtup : Bool := true
+
+/-- cond types/validator_set.go ValidatorSet.VerifyCommitLight -/
+def c13_light_early_return : String := "talliedVotingPower > votingPowerNeeded"
+
+/-- const blockchain/v0/pool.go maxDiffBetweenCurrentAndReceivedBlockHeight -/
+def c13_maxDiffBetweenCurrentAndReceivedBlockHeight : Int := 100
+
+/-- const blockchain/v0/pool.go maxPendingRequestsPerPeer -/
+def c13_maxPendingRequestsPerPeer : Int := 20
+
+/-- cond blockchain/v0/pool.go BlockPool.pickIncrAvailablePeer -/
+def c13_pick_range_guard : String := "height < peer.base || height > peer.height"
+
+/-- order consensus/state.go State.reconstructLastCommit -/
+def c13_reconstruct_calls : List String := ["LoadSeenCommit", "CommitToVoteSet", "HasTwoThirdsMajority"]
+
+/-- cond blockchain/v0/pool.go bpRequester.setBlock -/
+def c13_setBlock_guard : String := "bpr.block != nil || bpr.peerID != peerID"
+
+/-- has blockchain/v0/reactor.go BlockchainReactor.poolRoutine -/
+def c13_v0_save_seen : Bool := true
+
+/-- order blockchain/v0/reactor.go BlockchainReactor.poolRoutine -/
+def c13_v0_step_order : List String := ["StopPeerForError", "PeekTwoBlocks", "VerifyCommitLight", "ValidateBlock", "RedoRequest", "PopRequest", "SaveBlock", "ApplyBlock"]
+
+/-- has blockchain/v0/reactor.go BlockchainReactor.poolRoutine -/
+def c13_v0_verify_call : Bool := true
+
+/-- has blockchain/v1/reactor.go BlockchainReactor.processBlock -/
+def c13_v1_verify_call : Bool := true
+
+/-- has blockchain/v2/processor_context.go pContext.verifyCommit -/
+def c13_v2_verify_call : Bool := true
+
+/-- cond consensus/wal.go WALDecoder.Decode -/
+def c15_decode_clean_eof : String := "errors.Is(err, io.EOF) && nr == 0"
+
+/-- has libs/autofile/group.go OpenGroup -/
+def c15_headBuf_40k : Bool := true
+
+/-- const libs/autofile/group.go maxFilesToRemove -/
+def c15_maxFilesToRemove : Int := 4
+
+/-- const consensus/reactor.go maxMsgSize -/
+def c15_maxMsgSize : Int := 1048576
+
+/-- order consensus/state.go State.OnStart -/
+def c15_onstart_repair_order : List String := ["loadWalFile", "catchupReplay", "Stop", "CopyFile", "repairWalFile"]
+
+/-- has consensus/state.go repairWalFile -/
+def c15_repair_syncs : Bool := true
+
+/-- cond libs/autofile/group.go Group.checkHeadSizeLimit -/
+def c15_rotate_guard : String := "size >= limit"
+
+/-- cond consensus/wal.go BaseWAL.SearchForEndHeight -/
+def c15_search_early_exit : String := "lastHeightFound > 0 && lastHeightFound < height"
+
+/-- const p2p/conn/secret_connection.go aeadSizeOverhead -/
+def c16_aeadSizeOverhead : Int := 16
+
+/-- const p2p/conn/secret_connection.go dataLenSize -/
+def c16_dataLenSize : Int := 4
+
+/-- const p2p/conn/secret_connection.go dataMaxSize -/
+def c16_dataMaxSize : Int := 1024
+
+/-- order p2p/conn/secret_connection.go MakeSecretConnection -/
+def c16_handshake_order : List String := ["shareEphPubKey", "sort32", "computeDHSecret", "deriveSecrets", "ExtractBytes", "signChallenge", "shareAuthSignature", "VerifySignature"]
+
+/-- cond p2p/conn/secret_connection.go incrNonce -/
+def c16_incrNonce_guard : String := "counter == math.MaxUint64"
+
+/-- cond p2p/conn/secret_connection.go SecretConnection.Read -/
+def c16_read_len_guard : String := "chunkLength > dataMaxSize"
+
+/-- order p2p/conn/secret_connection.go SecretConnection.Read -/
+def c16_read_order : List String := ["ReadFull", "Open", "incrNonce"]
+
+/-- const p2p/conn/secret_connection.go totalFrameSize -/
+def c16_totalFrameSize : Int := 1028
+
+/-- cond p2p/transport.go MultiplexTransport.upgrade -/
+def c16_upgrade_dialed_guard : String := "connID != dialedID"
+
+/-- cond p2p/transport.go MultiplexTransport.upgrade -/
+def c16_upgrade_nodeinfo_guard : String := "connID != nodeInfo.ID()"
+
+/-- cond p2p/transport.go MultiplexTransport.upgrade -/
+def c16_upgrade_self_guard : String := "mt.nodeInfo.ID() == nodeInfo.ID()"
+
+/-- cond p2p/conn/secret_connection.go MakeSecretConnection -/
+def c16_verify_guard : String := "!remPubKey.VerifySignature(challenge[:], remSignature)"
+
+/-- order p2p/conn/secret_connection.go SecretConnection.Write -/
+def c16_write_order : List String := ["Seal", "incrNonce", "Write"]
+
+/-- order consensus/state.go State.finalizeCommit -/
+def c18_finalizeCommit_order : List String := ["SaveBlock", "ApplyBlock", "pruneBlocks"]
+
+/-- order consensus/state.go State.pruneBlocks -/
+def c18_pruneBlocks_glue_order : List String := ["PruneBlocks", "PruneStates"]
+
+/-- cond store/store.go BlockStore.PruneBlocks -/
+def c18_prune_flush_cond : String := "pruned%1000 == 0 && pruned > 0"
+
+/-- has store/store.go BlockStore.PruneBlocks -/
+def c18_prune_flush_next_base : Bool := true
+
+/-- order store/store.go BlockStore.SaveBlock -/
+def c18_saveBlock_order : List String := ["saveBlockPart", "calcBlockMetaKey", "calcBlockHashKey", "calcBlockCommitKey", "calcSeenCommitKey", "saveState"]
+
+/-- const state/store.go valSetCheckpointInterval -/
+def c18_valSetCheckpointInterval : Int := 100000
+
+/-- order state/indexer/block/kv/kv.go BlockerIndexer.Search -/
+def c19_block_search_order : List String := ["Conditions", "lookForHeight", "LookForRanges", "match"]
+
+/-- const types/event_bus.go defaultCapacity -/
+def c19_eventbus_defaultCapacity : Int := 0
+
+/-- cond libs/pubsub/query/query.go Query.Matches -/
+def c19_matches_empty_guard : String := "len(events) == 0"
+
+/-- const rpc/core/events.go maxQueryLength -/
+def c19_rpc_maxQueryLength : Int := 512
+
+/-- has libs/pubsub/pubsub.go state.send -/
+def c19_send_continues_after_match_error : Bool := true
+
+/-- order libs/pubsub/pubsub.go state.send -/
+def c19_send_order : List String := ["Matches", "NewMessage", "remove"]
+
+/-- cond libs/pubsub/pubsub.go state.send -/
+def c19_send_unbuffered_cond : String := "cap(subscription.out) == 0"
+
+/-- cond libs/pubsub/pubsub.go Server.Subscribe -/
+def c19_subscribe_capacity_guard : String := "outCapacity[0] <= 0"
+
+/-- has state/txindex/kv/kv.go isTagKey -/
+def c19_tx_istagkey_three : Bool := true
+
+/-- order state/txindex/kv/kv.go TxIndex.Search -/
+def c19_tx_search_order : List String := ["Conditions", "lookForHash", "LookForRanges", "lookForHeight", "match"]
+
+/-- cond state/txindex/kv/kv.go startKeyForCondition -/
+def c19_tx_startkey_height_cond : String := "height > 0"
+
+/-- const version/version.go BlockProtocol -/
+def c20_BlockProtocol : Int := 11
+
+/-- const types/params.go MaxBlockSizeBytes -/
+def c20_MaxBlockSizeBytes : Int := 104857600
+
+/-- const types/genesis.go MaxChainIDLen -/
+def c20_MaxChainIDLen : Int := 50
+
+/-- const crypto/tmhash/hash.go TruncatedSize -/
+def c20_addressSize : Int := 20
+
+/-- has light/rpc/client.go Client.BlockchainInfo -/
+def c20_bcinfo_verifies_each : Bool := true
+
+/-- cond light/rpc/client.go Client.BlockResults -/
+def c20_blockResults_hash_guard : String := "!bytes.Equal(rH, tH)"
+
+/-- has light/rpc/client.go Client.BlockResults -/
+def c20_blockResults_hashes_events : Bool := false
+
+/-- cond light/rpc/client.go Client.BlockResults -/
+def c20_blockResults_height_guard : String := "res.Height != h"
+
+/-- order light/rpc/client.go Client.Block -/
+def c20_block_order : List String := ["res.BlockID.ValidateBasic", "res.Block.ValidateBasic", "c.updateLightClientIfNeededTo"]
+
+/-- const light/rpc/client.go defaultPerPage -/
+def c20_defaultPerPage : Int := 30
+
+/-- has state/store.go ABCIResponsesResultsHash -/
+def c20_header_results_root : Bool := true
+
+/-- const light/rpc/client.go maxPerPage -/
+def c20_maxPerPage : Int := 100
+
+/-- has types/params.go HashConsensusParams -/
+def c20_paramsHash_only_block : Bool := true
+
+/-- cond light/rpc/client.go Client.Tx -/
+def c20_tx_data_guard : String := "!bytes.Equal(res.Proof.Data, res.Tx)"
+
+/-- cond light/rpc/client.go Client.Tx -/
+def c20_tx_hash_guard : String := "!bytes.Equal(txH, hash) || !bytes.Equal(res.Hash, hash)"
+
+/-- has light/rpc/client.go Client.updateLightClientIfNeededTo -/
+def c20_update_uses_latest_trusted : Bool := true
+
+/-- order consensus/state.go State.defaultDecideProposal -/
+def cs_proposal_flush_first : List String := ["FlushAndSync", "SignProposal"]
+
+/-- order consensus/state.go State.signVote -/
+def cs_signVote_flush_first : List String := ["FlushAndSync", "SignVote"]
+
+/-- order evidence/pool.go Pool.AddEvidence -/
+def evpool_add_order : List String := ["evpool.isPending", "evpool.isCommitted", "evpool.verify", "evpool.addPendingEvidence"]
+
+/-- const evidence/pool.go baseKeyCommitted -/
+def evpool_baseKeyCommitted : Int := 0
+
+/-- const evidence/pool.go baseKeyPending -/
+def evpool_baseKeyPending : Int := 1
+
+/-- cond evidence/pool.go Pool.CheckEvidence -/
+def evpool_check_add_once : String := "!evpool.isPending(ev)"
+
+/-- cond evidence/pool.go Pool.CheckEvidence -/
+def evpool_check_guard : String := "isLightEv || !evpool.isPending(ev)"
+
+/-- has evidence/pool.go Pool.isExpired -/
+def evpool_isExpired_both : Bool := true
+
+/-- order evidence/pool.go Pool.Update -/
+def evpool_update_order : List String := ["evpool.processConsensusBuffer", "evpool.updateState", "evpool.markEvidenceAsCommitted", "evpool.removeExpiredPendingEvidence"]
+
+/-- cond evidence/pool.go Pool.Update -/
+def evpool_update_prune : String := "evpool.Size() > 0"
+
+/-- cond evidence/verify.go Pool.verify -/
+def evpool_verify_expiry : String := "ageDuration > evidenceParams.MaxAgeDuration && ageNumBlocks > evidenceParams.MaxAgeNumBlocks"
+
+/-- const p2p/conn/connection.go defaultMaxPacketMsgPayloadSize -/
+def mconn_defaultMaxPacketMsgPayloadSize : Int := 1024
+
+/-- const p2p/conn/connection.go defaultRecvMessageCapacity -/
+def mconn_defaultRecvMessageCapacity : Int := 22020096
+
+/-- const p2p/conn/connection.go defaultSendQueueCapacity -/
+def mconn_defaultSendQueueCapacity : Int := 1
+
+/-- cond p2p/conn/connection.go Channel.isSendPending -/
+def mconn_isSendPending_guard : String := "ch.sending == nil"
+
+/-- cond p2p/conn/connection.go Channel.nextPacketMsg -/
+def mconn_nextPacket_eof_guard : String := "len(ch.sending) <= maxSize"
+
+/-- cond p2p/conn/connection.go Channel.recvPacketMsg -/
+def mconn_recv_capacity_guard : String := "recvCap < recvReceived"
+
+/-- cond p2p/conn/connection.go MConnection.recvRoutine -/
+def mconn_unknown_channel_guard : String := "pkt.PacketMsg.ChannelID < 0 || pkt.PacketMsg.ChannelID > math.MaxUint8 || !ok || channel == nil"
+
+/-- has mempool/v0/clist_mempool.go CListMempool.resCbFirstTime -/
+def mempoolV0_admit_atomic : Bool := true
+
+/-- order mempool/v0/clist_mempool.go CListMempool.resCbFirstTime -/
+def mempoolV0_admit_order : List String := ["mem.isFull", "mem.txsMap.Load", "mem.addTx"]
+
+/-- has mempool/v0/clist_mempool.go CListMempool.resCbFirstTime -/
+def mempoolV0_inpool_guard : Bool := true
+
+/-- cond mempool/v0/clist_mempool.go CListMempool.isFull -/
+def mempoolV0_isFull : String := "memSize >= mem.config.Size || int64(txSize)+txsBytes > mem.config.MaxTxsBytes"
+
+/-- cond mempool/v0/clist_mempool.go CListMempool.ReapMaxTxs -/
+def mempoolV0_reapMaxTxs_loop : String := "e != nil && len(txs) < max"
+
+/-- order mempool/v1/mempool.go TxMempool.addNewTransaction -/
+def mempoolV1_admit_order : List String := ["txmp.canAddTx", "txmp.removeTxByElement", "txmp.insertTx"]
+
+/-- cond mempool/v1/mempool.go TxMempool.canAddTx -/
+def mempoolV1_canAddTx : String := "numTxs >= txmp.config.Size || wtx.Size()+txBytes > txmp.config.MaxTxsBytes"
+
+/-- has mempool/v1/mempool.go TxMempool.addNewTransaction -/
+def mempoolV1_inpool_guard : Bool := true
+
+/-- cond mempool/v1/mempool.go TxMempool.addNewTransaction -/
+def mempoolV1_victim : String := "cw.priority < priority"
+
 /-- const crypto/merkle/proof.go MaxAunts -/
 def merkle_MaxAunts : Int := 100
 
-def factCount : Nat := 3
+/-- const proto/tendermint/types/types.pb.go PrecommitType -/
+def pv_PrecommitType : Int := 2
+
+/-- const proto/tendermint/types/types.pb.go PrevoteType -/
+def pv_PrevoteType : Int := 1
+
+/-- const proto/tendermint/types/types.pb.go ProposalType -/
+def pv_ProposalType : Int := 32
+
+/-- order libs/tempfile/tempfile.go WriteFileAtomic -/
+def pv_atomic_order : List String := ["OpenFile", "Write", "Rename"]
+
+/-- cond privval/file.go FilePVLastSignState.CheckHRS -/
+def pv_checkHRS_height : String := "lss.Height > height"
+
+/-- cond privval/file.go FilePVLastSignState.CheckHRS -/
+def pv_checkHRS_round : String := "lss.Round > round"
+
+/-- cond privval/file.go FilePVLastSignState.CheckHRS -/
+def pv_checkHRS_step : String := "lss.Step > step"
+
+/-- has privval/file.go FilePV.signProposal -/
+def pv_proposal_persist_before_release : Bool := true
+
+/-- has privval/file.go FilePV.saveSigned -/
+def pv_saveSigned_saves : Bool := true
+
+/-- order privval/file.go FilePV.signProposal -/
+def pv_signProposal_order : List String := ["CheckHRS", "ProposalSignBytes", "Sign", "saveSigned"]
+
+/-- order privval/file.go FilePV.signVote -/
+def pv_signVote_order : List String := ["CheckHRS", "VoteSignBytes", "Sign", "saveSigned"]
+
+/-- const privval/file.go stepPrecommit -/
+def pv_stepPrecommit : Int := 3
+
+/-- const privval/file.go stepPrevote -/
+def pv_stepPrevote : Int := 2
+
+/-- const privval/file.go stepPropose -/
+def pv_stepPropose : Int := 1
+
+/-- has privval/file.go FilePV.signVote -/
+def pv_vote_persist_before_release : Bool := true
+
+def factCount : Nat := 171
 
 end Tmv.Facts
